@@ -253,3 +253,39 @@ Theorem C08_ser_fault_wrong_text_refuted :
     = STxt (34 :: repeat 97 40 ++ [34]).
 Proof. exact ser_fault_wrong_text_refuted. Qed.
 Print Assumptions C08_ser_fault_wrong_text_refuted.
+
+(* ================= sprintbuf with its vasprintf temporary (printbuf.c) *)
+(* every allocator behaviour, every formatted output on either side of the 128-byte stack
+   buffer: Done — the contents grew by exactly the output and only the buffer's block (the
+   old one, or the one new block that replaced it) is live besides [rest]; Refused (-1) —
+   the very same blocks are live as before: the temporary was released, once *)
+Theorem C08_sprintbuf_clean : forall o q out s rest,
+  PbProofs.Inv (lp_buf q) ->
+  Permutation (live s) (lp_blk q :: rest) ->
+  op_fault_clean same_live s
+    (fun s' qr => PbProofs.Inv (lp_buf (fst qr)) /\
+                  PbProofs.pb_abs (lp_buf (fst qr)) = PbProofs.pb_abs (lp_buf q) ++ out /\
+                  Permutation (live s') (lp_blk (fst qr) :: rest))
+    (res_out (sprintbuf o q out s)).
+Proof. exact sprintbuf_clean. Qed.
+Print Assumptions C08_sprintbuf_clean.
+
+(* negative control: with one early "return -1" for both failures of the long branch the
+   temporary (block 10) stays live when the buffer cannot grow; plus non-vacuity of the
+   statement above (both failure points, success with growth, the short branch) *)
+Theorem C08_sprintbuf_tmp_leak_refuted :
+  sprintbuf_flat (single_fault 11) ex_lpb ex_out200 (mkast 10 [0%nat]) = Fail (mkast 12 [10; 0]%nat) /\
+  ~ op_fault_clean same_live (mkast 10 [0%nat]) (fun _ _ => True)
+      (res_out (sprintbuf_flat (single_fault 11) ex_lpb ex_out200 (mkast 10 [0%nat]))) /\
+  sprintbuf (single_fault 11) ex_lpb ex_out200 (mkast 10 [0%nat]) = Fail (mkast 12 [0%nat]) /\
+  sprintbuf (single_fault 10) ex_lpb ex_out200 (mkast 10 [0%nat]) = Fail (mkast 11 [0%nat]) /\
+  match sprintbuf no_fault ex_lpb ex_out200 (mkast 10 [0%nat]) with
+  | Ok (q', r) s' => r = 200 /\ live s' = [11%nat] /\ lp_blk q' = 11%nat /\ pb_text (lp_buf q') = ex_out200
+  | _ => False
+  end /\
+  match sprintbuf (single_fault 10) ex_lpb (repeat 120 20) (mkast 10 [0%nat]) with
+  | Ok (q', r) s' => r = 20 /\ live s' = [0%nat] /\ nreq s' = 10%nat
+  | _ => False
+  end.
+Proof. exact sprintbuf_tmp_leak_refuted. Qed.
+Print Assumptions C08_sprintbuf_tmp_leak_refuted.
